@@ -77,7 +77,7 @@ P = {
    ref="DESIGN.md §2 C14"),
  "C15": dict(
    technique="abstract interpretation of iComparer.Compare's loop-free CFG over the finite sign domain, guard extraction for the Separator/Successor shortening conditions, sibling comparison of trailer encode/decode, constant evaluation, comparer-discipline scan",
-   text="Decides the sign table of the internal-key comparison (user key ascending via the configured comparer, then sequence|kind descending, operands in the right order), the shortening guards of iComparer.Separator/Successor (shortened key only when shorter and strictly greater than the left key, maximal trailer appended, else nil), trailer encode/decode agreement and range checks, and the key constants. Totality/transitivity for arbitrary user comparers, the bytewise comparer's own laws over all byte strings, and 'the index routes every lookup' are not decided.",
+   text="Decides the sign table of the internal-key comparison (user key ascending via the configured comparer, then sequence|kind descending, operands in the right order), the shortening guards of iComparer.Separator/Successor (shortened key only when shorter and strictly greater than the left key, maximal trailer appended, else nil), trailer encode/decode agreement and range checks, and the key constants. Also the guard of the built-in bytewise shortening (prefix + incremented byte only when the result stays below b / above b). Totality/transitivity for arbitrary user comparers, the laws of other shortening constructions, and 'the index routes every lookup' are not decided.",
    ref="DESIGN.md §2 C15"),
  "C16": dict(
    technique='sibling comparison of normalised SSA expression signatures (bloom generator vs probe; filter block writer vs reader), call-site argument flow (user key on both sides), must-precede (add-to-filter before success; flush per block; finish before metaindex), guard extraction for the fail-open rules',
